@@ -28,6 +28,8 @@ def run(ctx):
     else:
         closure(ctx, narrow, "n4", 1, 4, props)
         closure(ctx, wide, "w3", 4, 3, props)
+        # objects set up with the CSTL_*_INITIALIZER macros instead of the init functions: same closure, same model
+        closure(ctx, build(ctx, "drv_str_macro", "drv_str.c", LIB, wrap=WRAP, defs=["USE_INITIALIZER"]), "n3-macro", 1, 3, props)
         steps, ml = 15000, 400
     impl_phase(ctx, "rand-n", narrow, ["random", ctx.seed, steps, 2], [ml, 1], "TraceStr", LT, consts(1), props)
     impl_phase(ctx, "rand-w", wide, ["random", ctx.seed + 1, steps, 2], [ml, 1], "TraceStr", LT, consts(4), props)
